@@ -233,6 +233,34 @@ func checkC08(p *Prog, r *Report) {
 	r.Rule("R8.15", "The abort that Close issues for a write blocked on a shared UDP mux socket is forwarded unconditionally: the handle forwards to the connection it wraps whenever that supports aborting, and the muxed connection forwards to the mux on every path — no bookkeeping of its own decides that there is nothing to abort (rule shared with C13 R13.4).", 2)
 	checkAbortForwarding(p, r)
 
+	// ---- R8.16 closing an active TCP connection always wakes its reader -----------------------------------------
+	r.Rule("R8.16", "activeTCPConn.Close marks the connection closed and closes both packet buffers on every path — no error of the socket's own Close (already closed by the I/O goroutine after a failed write) makes it return first: the buffered reader is what the candidate's receive loop is parked in, and the candidate's close waits for that loop.", 3)
+	if f := p.Fn("activeTCPConn.Close"); r.Anchor("activeTCPConn.Close", f != nil) {
+		for _, fld := range []string{"activeTCPConn.readBuffer", "activeTCPConn.writeBuffer"} {
+			var call *ast.CallExpr
+			walkBody(f, func(x ast.Node) bool {
+				if cc, ok := x.(*ast.CallExpr); ok {
+					if sel, ok := unparen(cc.Fun).(*ast.SelectorExpr); ok && sel.Sel.Name == "Close" && p.IsField(sel.X, fld) {
+						call = cc
+					}
+				}
+				return true
+			})
+			ok := call != nil && p.calledOnEveryPath(f, call)
+			r.Check(ok, "activeTCPConn.Close closes "+fld+" on every path", p.Pos(f.Body.Pos()), "closed before every return", "a path through Close returns without closing "+fld+": the receive loop of the candidate stays parked in the buffered read, candidateBase.close waits for it forever and Agent.Close (Restart, the Failed wipe) never returns")
+		}
+		stored := false
+		walkBody(f, func(x ast.Node) bool {
+			if cc, ok := x.(*ast.CallExpr); ok && p.isMethodOnField(cc, "activeTCPConn.closed", "Store") && len(cc.Args) == 1 {
+				if v, _ := p.ConstVal(cc.Args[0]); v == "true" && p.calledOnEveryPath(f, cc) {
+					stored = true
+				}
+			}
+			return true
+		})
+		r.Check(stored, "activeTCPConn.Close marks the connection closed on every path", p.Pos(f.Body.Pos()), "closed.Store(true)", "Close can return without marking the connection closed: the dial / I/O goroutine keeps running")
+	}
+
 	// ---- R8.3 close sequence ------------------------------------------------------------------
 	r.Rule("R8.3", "Agent.close marks the loop closed, then aborts the I/O of started candidates (as the loop's pre-stop action), then waits for the loop; the abort closes closeCh, expires deadlines, aborts a blocked shared write and closes the conn exactly once; the loop's close callback cancels and awaits gathering, drops mux entries, deletes candidates, releases starters and the reader buffer, closes mDNS and reports Closed.", 4)
 	closers := p.agentClosers()
